@@ -17,11 +17,13 @@ import (
 	"strconv"
 	"strings"
 
+	arieslog "github.com/hyperledger/aries-framework-go/component/log"
 	"github.com/hyperledger/aries-framework-go/component/storageutil/mem"
 	"github.com/hyperledger/aries-framework-go/pkg/didcomm/common/service"
 	"github.com/hyperledger/aries-framework-go/pkg/didcomm/protocol/decorator"
 	"github.com/hyperledger/aries-framework-go/pkg/didcomm/protocol/issuecredential"
 	"github.com/hyperledger/aries-framework-go/pkg/didcomm/protocol/presentproof"
+	spilog "github.com/hyperledger/aries-framework-go/spi/log"
 	spi "github.com/hyperledger/aries-framework-go/spi/storage"
 )
 
@@ -259,6 +261,9 @@ func c09Run(input string) string {
 	parts := strings.SplitN(input, "|", 2)
 	if len(parts) != 2 {
 		return "bad-input"
+	}
+	if parts[0] == "dx" || parts[0] == "lc" {
+		return c09xRun(input) // the connection protocols, between two real agents (c09x.go)
 	}
 	sp := mem.NewProvider()
 	msgr := &recMessenger{}
@@ -542,9 +547,14 @@ func c09Gen(r *Rng, tier string) []string {
 		}
 		out = append(out, p+"|"+strings.Join(ops, ";"))
 	}
+	nx := 60
+	if tier == "thorough" {
+		nx = 1500
+	}
+	out = append(out, c09xGen(r, nx)...)
 	return out
 }
 
 func init() {
-	register("C09", &Prop{Gen: c09Gen, Run: c09Run})
+	register("C09", &Prop{Gen: c09Gen, Run: c09Run, Setup: func() { arieslog.SetLevel("", spilog.CRITICAL) }})
 }
